@@ -15,7 +15,7 @@ from vlib import dbfile
 from gen import exports as G
 
 RANK = {'published': 0, 'public': 1, 'protected': 2, 'private': 3}
-SRC = {'cmdline': 'local', 'cmdline2': 'local', 'cwd': 'local', 'alt': 'alternate', 'sys': 'system'}
+SRC = {'cmdline': 'local', 'cmdline2': 'local', 'cwd': 'local', 'alt': 'alternate', 'sys': 'system', 'cmdline3': 'local', 'sibling': 'alternate'}
 
 
 def bit(x):
@@ -41,16 +41,17 @@ def main():
         vlib.shutil.rmtree(wd, ignore_errors=True)
         os.makedirs(os.path.join(wd, 'alt'))
         os.makedirs(os.path.join(wd, 'sys'))
+        os.makedirs(os.path.join(wd, 'pkg'))
         texts = {}
         for f in w['files']:
-            sub = {'alt': 'alt', 'sys': 'sys'}.get(f['how'], '')
+            sub = {'alt': 'alt', 'sys': 'sys', 'cmdline3': 'pkg', 'sibling': 'pkg'}.get(f['how'], '')
             texts[os.path.join(sub, f['name'])] = G.render_file(w, f)
             open(os.path.join(wd, sub, f['name']), 'w').write(texts[os.path.join(sub, f['name'])])
         nf = G.nfile(w)
         if nf:
             open(os.path.join(wd, 'main.N'), 'w').write(nf)
             texts['main.N'] = nf
-        cmdfiles = [f['name'] for f in w['files'] if f['how'] in ('cmdline', 'cmdline2')]
+        cmdfiles = [f['name'] for f in w['files'] if f['how'] in ('cmdline', 'cmdline2')] + ['pkg/' + f['name'] for f in w['files'] if f['how'] == 'cmdline3']
         opts = ['-promiscuous'] if w['promiscuous'] else []
         cmd = [b['interrogate'], '-oc', 'w.cxx', '-od', 'w.in', '-module', 'm', '-library', 'l', '-c', '-fnames', '-I', 'alt', '-S', 'sys'] + opts + cmdfiles
         p = vlib.sh(cmd, cwd=wd)
@@ -91,7 +92,7 @@ def main():
                     k = it
                     # inside a __begin_publish region the label 'public:' means published (cppBison.yxx, KW_PUBLIC ':')
                     for m in k['members']:
-                        m['evis'] = 'published' if (k['region'] and m['vis'] == 'public') else m['vis']
+                        m['evis'] = 'published' if ((k['region'] and m['vis'] == 'public') or m.get('pubregion')) else m['vis']
                     mv = ([k['prot_vis']] if k['prot_nested'] else []) + [m['evis'] for m in k['members']]
                     kvis = 'published' if k['region'] else 'public'
                     cl = '(class %s %s %s %s (%s))' % (head, ffacts(f), kvis, bit(k['template']), ' '.join(mv))
